@@ -15,6 +15,7 @@ core = simproc.core
 ID = "C17"
 LEVEL = "exploration"
 BATCH = 25
+PROBES_EXPECTED = ['probe:menu-entered-or-left', 'probe:input-accepted', 'probe:session-ended']
 TIERS = {"quick": {"runs": 5000, "wall": 50}, "thorough": {"runs": 200000, "wall": 840}}
 RULE = ("each run draws a program (biased to menus with `visible if`, menuconfig options with implicit sub-menus, choices, select/set-locked options), "
         "an initial sdkconfig class and a history of 5-60 UI actions (the complete key table of MenuConfigApp/MenuOptionList with dialog answers: keys, "
@@ -97,7 +98,8 @@ class Monitor:
         with simproc.quiet():
             # 3. leave_menu returns to the menu that was left
             if key in ("left",) and pre["menu"] is not k.top_node and st.cur_menu is not pre["menu"]:
-                if st.shown and st.shown[st.sel_node_i] is not pre["menu"]:
+                # only when the menu that was left still exists in the displayed list
+                if st.shown and pre["menu"] in st.shown and st.shown[st.sel_node_i] is not pre["menu"]:
                     ctx.violate("C17/leave-menu-wrong-row", f"{where}: left a menu but the highlighted row is not that menu")
             if st.cur_menu is not pre["menu"]:
                 self.menu_moves += 1
